@@ -329,9 +329,12 @@ let expected_fuel ms =
     while !total < ms do total := !total + !cur; cur := min 500 (!cur * 2); incr n done; !n end
 let do_cw line args res =
   match args, res with
-  | [bound; tons; script], [ir; icalls] ->
+  | [regs; tons; script], ir :: icalls :: ieff ->
       incr ncases;
-      let bound = zh bound and tons = zh tons in
+      let regs = List.map zh (String.split_on_char ',' regs) in
+      (* the constraint in effect = maximum over the registration sequence (model: cw_bound) *)
+      let bound = cw_bound regs and tons = zh tons in
+      (match ieff with e :: _ -> if hz bound <> e then mismatch line ("constraint in effect " ^ hz bound) | [] -> ());
       let sc = if script = "-" then [] else List.map (fun x -> if x = "err" then None else Some (zh x)) (String.split_on_char ',' script) in
       let calls = int_of_string icalls in
       (* relational: the fuel is the number of back-offs the implementation was granted *)
@@ -347,7 +350,7 @@ let do_cw line args res =
       if m2 <> kind ^ "\t" ^ icalls then mismatch line ("with the Backoffer's budget: " ^ m2);
       if kind <> "err" then begin
         let ts = zh (String.sub ir 3 (String.length ir - 3)) in
-        prop "commit_wait_gt_bound" (bound <! ts) line "";
+        prop "commit_wait_gt_bound" (List.for_all (fun r -> r <! ts) regs) line "greater than every registered value";
         prop "commit_wait_is_pd_ts" (List.exists (fun x -> match x with Some y -> zeq y ts | None -> false) sc) line ""
       end else bump ("cw:" ^ ir)
   | _ -> ()
